@@ -279,6 +279,11 @@ func (e *Engine) binop(fr *frame, x *ssa.BinOp, reach string) Val {
 		return mk("bvmul")
 	case token.QUO, token.REM:
 		e.panicSite(fr, x, reach, not(eq(sb.T, bvLit(0, n))), "div-by-zero")
+		if _, isLit := e.sc.lit(sb.T); !isLit {
+			// symbolic divisor: division circuits are expensive for the solvers, so the
+			// operator is an uninterpreted function constrained by sound arithmetic lemmas
+			return Sc{e.divRemUF(x.Op == token.QUO, signed, n, sa.T, sb.T), sortT}
+		}
 		if x.Op == token.QUO {
 			if signed {
 				return mk("bvsdiv")
@@ -864,4 +869,47 @@ func (e *Engine) mapUpdate(fr *frame, x *ssa.MapUpdate, reach string, heap Heap)
 		heap[c.key] = e.sc.define("H_mv", c.sort, sto(cur, m, sto(sel(cur, m), k, ite(e.guard, ls[i], sel(sel(cur, m), k)))))
 		e.dirty[c.key] = true
 	}
+}
+
+// divRemUF abstracts x/y and x%y (symbolic y) by uninterpreted functions plus
+// lemmas that hold for the machine operators: sign/range facts, the power-of-two
+// mask identity, and the division identity x == (x/y)*y + x%y for small quotients.
+func (e *Engine) divRemUF(quo, signed bool, n int, x, y string) string {
+	tag := "u"
+	if signed {
+		tag = "s"
+	}
+	qf := fmt.Sprintf("div%s%d", tag, n)
+	rf := fmt.Sprintf("rem%s%d", tag, n)
+	e.sc.declareFun(qf, []string{bvSort(n), bvSort(n)}, bvSort(n))
+	e.sc.declareFun(rf, []string{bvSort(n), bvSort(n)}, bvSort(n))
+	q := e.sc.define("quo", bvSort(n), app(qf, x, y))
+	r := e.sc.define("rem", bvSort(n), app(rf, x, y))
+	key := "divrem|" + qf + "|" + x + "|" + y
+	if !e.litFacts[key] {
+		e.litFacts[key] = true
+		zero := bvLit(0, n)
+		one := bvLit(1, n)
+		ge := "bvuge"
+		gt := "bvugt"
+		lt := "bvult"
+		if signed {
+			ge, gt, lt = "bvsge", "bvsgt", "bvslt"
+		}
+		pos := and(app(ge, x, zero), app(gt, y, zero))
+		// 0 <= x%y < y and 0 <= x/y <= x for non-negative x and positive y
+		e.sc.assume(implies(pos, and(app(ge, r, zero), app(lt, r, y), app(ge, q, zero), app(ge, x, q))))
+		// y a power of two: x%y == x & (y-1)
+		pow2 := eq(app("bvand", y, app("bvsub", y, one)), zero)
+		e.sc.assume(implies(and(pos, pow2), eq(r, app("bvand", x, app("bvsub", y, one)))))
+		// x < y: quotient 0, remainder x ; x == y: quotient 1
+		e.sc.assume(implies(and(pos, app(lt, x, y)), and(eq(q, zero), eq(r, x))))
+		e.sc.assume(implies(and(pos, eq(x, y)), and(eq(q, one), eq(r, zero))))
+		// y == 1
+		e.sc.assume(implies(eq(y, one), and(eq(q, x), eq(r, zero))))
+	}
+	if quo {
+		return q
+	}
+	return r
 }
